@@ -283,6 +283,46 @@ pub fn scenarios() -> Vec<(&'static str, Op)> {
             let s = ok_or_none!(TcpStream::connect_with_timeout(&SocketAddress::new(Ip::V4([127, 0, 0, 1]), e.tcp_port), core::time::Duration::from_millis(50)));
             Held::of(vec![fd_of(&s)], s)
         }),
+        // arguments that cannot be represented (a time limit beyond i64::MAX seconds, the usual
+        // "wait for ever" spelled Duration::MAX): refused or honoured, but nothing may stay open
+        ("TcpStream::connect_with_timeout unrepresentable limit", |e| {
+            let s = ok_or_none!(TcpStream::connect_with_timeout(&SocketAddress::new(Ip::V4([127, 0, 0, 1]), e.tcp_port), core::time::Duration::MAX));
+            Held::of(vec![fd_of(&s)], s)
+        }),
+        ("accept_with_timeout / read_with_timeout unrepresentable limit", |e| {
+            let mut owned = Vec::new();
+            let mut keep: Vec<Box<dyn Any>> = Vec::new();
+            if let Ok(mut l) = UnixListener::bind(&p(e, "acc2.sock")) {
+                owned.push(fd_of_ul(&l));
+                let c1 = std::os::unix::net::UnixStream::connect(e.root.join("acc2.sock"));
+                if let Ok(s) = l.accept_with_timeout(core::time::Duration::MAX) {
+                    owned.push(fd_of(&s));
+                    keep.push(Box::new(s));
+                }
+                // the harness's own end is closed before the table is compared
+                drop(c1);
+                keep.push(Box::new(l));
+            }
+            if let Ok(mut l) = TcpListener::bind(&SocketAddress::new(Ip::V4([127, 0, 0, 1]), 0)) {
+                owned.push(fd_of_tl(&l));
+                if let Ok(addr) = l.local_addr() {
+                    let c1 = std::net::TcpStream::connect(("127.0.0.1", port_of(&addr)));
+                    if let Ok(mut s) = l.accept_with_timeout(core::time::Duration::new(u64::MAX, 5)) {
+                        owned.push(fd_of(&s));
+                        if let Ok(c) = &c1 {
+                            use std::io::Write as _;
+                            let _ = (&*c).write_all(b"x");
+                        }
+                        let mut b = [0u8; 4];
+                        let _ = s.read_with_timeout(&mut b, core::time::Duration::MAX);
+                        keep.push(Box::new(s));
+                    }
+                    drop(c1);
+                }
+                keep.push(Box::new(l));
+            }
+            Held::of(owned, keep)
+        }),
         ("TcpStream::try_connect + progress", |e| {
             match ok_or_none!(TcpStream::try_connect(&SocketAddress::new(Ip::V4([127, 0, 0, 1]), e.tcp_port))) {
                 TcpTryConnect::Connected(s) => Held::of(vec![fd_of(&s)], s),
@@ -559,7 +599,7 @@ pub fn reset_files(e: &Env) {
     let _ = std::fs::write(r.join("file.txt"), b"some text\nmore text\n");
     let _ = std::fs::write(r.join("binary.bin"), [0xffu8, 0xfe, 0x00, 0x80]);
     let _ = std::fs::write(r.join("big.bin"), vec![7u8; 300_000]);
-    for f in ["new.txt", "written.txt", "copy.bin", "copy2.bin", "bound.sock", "acc.sock", "dump.json", "rawout", "s\u{e9}\u{20ac}.sock"] {
+    for f in ["new.txt", "written.txt", "copy.bin", "copy2.bin", "bound.sock", "acc.sock", "acc2.sock", "dump.json", "rawout", "s\u{e9}\u{20ac}.sock"] {
         let _ = std::fs::remove_file(r.join(f));
     }
     let _ = std::fs::remove_dir_all(r.join("a"));
@@ -659,7 +699,67 @@ const CLOSED_STD: &str = "[caller's 0 and 1 closed]";
 
 /// Run one (scenario, fault) pair and judge it. Scenarios marked CLOSED_STD run with the harness's
 /// own descriptors 0 and 1 parked on high numbers and closed; they are put back afterwards.
+// ------------------------------------------------------------------------------------------
+// watchdog: an operation that waits for a child which itself waits for the caller (possible
+// only under faults no kernel produces, e.g. read(2) on a pipe answering ENOSPC) must not
+// stall the run: after 8 s every child of this process is killed and the case is not judged
+// ------------------------------------------------------------------------------------------
+static CASE_START_MS: std::sync::atomic::AtomicU64 = std::sync::atomic::AtomicU64::new(0);
+static WATCHDOG_FIRED: std::sync::atomic::AtomicU32 = std::sync::atomic::AtomicU32::new(0);
+
+fn now_ms() -> u64 {
+    let mut ts = libc::timespec { tv_sec: 0, tv_nsec: 0 };
+    unsafe { libc::clock_gettime(libc::CLOCK_MONOTONIC, &mut ts) };
+    ts.tv_sec as u64 * 1000 + ts.tv_nsec as u64 / 1_000_000
+}
+
+fn start_watchdog() {
+    static ONCE: std::sync::Once = std::sync::Once::new();
+    ONCE.call_once(|| {
+        std::thread::spawn(|| loop {
+            std::thread::sleep(std::time::Duration::from_millis(300));
+            let s = CASE_START_MS.load(std::sync::atomic::Ordering::SeqCst);
+            if s != 0 && now_ms().saturating_sub(s) > 8000 {
+                // first: from here on the case is not judged (this thread's own /proc handle
+                // would show up in the descriptor table of the case)
+                WATCHDOG_FIRED.fetch_add(1, std::sync::atomic::Ordering::SeqCst);
+                let me = std::process::id();
+                if let Ok(rd) = std::fs::read_dir("/proc") {
+                    for ent in rd.flatten() {
+                        let Some(pid) = ent.file_name().to_str().and_then(|n| n.parse::<i32>().ok()) else { continue };
+                        let Ok(stat) = std::fs::read_to_string(format!("/proc/{pid}/stat")) else { continue };
+                        // "pid (comm) S ppid ..." - comm may contain spaces: split after the last ')'
+                        let Some(rest) = stat.rsplit_once(')').map(|x| x.1) else { continue };
+                        let ppid: u32 = rest.split_whitespace().nth(1).and_then(|x| x.parse().ok()).unwrap_or(0);
+                        if ppid == me {
+                            unsafe { libc::kill(pid, libc::SIGKILL) };
+                        }
+                    }
+                }
+                CASE_START_MS.store(now_ms(), std::sync::atomic::Ordering::SeqCst);
+            }
+        });
+    });
+}
+
 pub fn run_case(env: &Env, name: &str, op: Op, fault: Option<(u32, i32)>, fault2: Option<(u32, i32)>, after_exec: bool, child_fault: &Option<(String, u32, i32)>, rep: &mut CaseReport) -> Result<Vec<sc::verif::Call>, Failure> {
+    start_watchdog();
+    let fired0 = WATCHDOG_FIRED.load(std::sync::atomic::Ordering::SeqCst);
+    CASE_START_MS.store(now_ms(), std::sync::atomic::Ordering::SeqCst);
+    let r = run_case_std(env, name, op, fault, fault2, after_exec, child_fault, rep);
+    CASE_START_MS.store(0, std::sync::atomic::Ordering::SeqCst);
+    if WATCHDOG_FIRED.load(std::sync::atomic::Ordering::SeqCst) != fired0 {
+        let _ = sc::verif::log_end();
+        sc::verif::clear_plan();
+        reap();
+        rep.class("harness-watchdog-killed-a-blocked-child(not judged)");
+        eprintln!("[C12] watchdog: {name} with fault {fault:?}/{fault2:?} waited for a child for more than 8 s; children killed, case not judged");
+        return Ok(Vec::new());
+    }
+    r
+}
+
+fn run_case_std(env: &Env, name: &str, op: Op, fault: Option<(u32, i32)>, fault2: Option<(u32, i32)>, after_exec: bool, child_fault: &Option<(String, u32, i32)>, rep: &mut CaseReport) -> Result<Vec<sc::verif::Call>, Failure> {
     if !name.contains(CLOSED_STD) {
         return run_case_inner(env, name, op, fault, fault2, after_exec, child_fault, rep);
     }
@@ -688,6 +788,14 @@ fn run_case_inner(env: &Env, name: &str, op: Op, fault: Option<(u32, i32)>, faul
     reset_files(env);
     let before = snapshot();
     let mut rules = Vec::new();
+    if !after_exec {
+        // whatever index a fault is aimed at: close, munmap and exit are always executed (answering
+        // them with an error WITHOUT executing them would manufacture the very leak - or a child
+        // that never sees end-of-file - that this check looks for)
+        for nr in [sc::nr::CLOSE, sc::nr::MUNMAP, sc::nr::EXIT, sc::nr::EXIT_GROUP] {
+            rules.push(Rule { nr: Some(nr), nth: None, action: Action::PassThrough, times: usize::MAX });
+        }
+    }
     if let Some((j, e)) = fault {
         let action = if after_exec { Action::ExecThenRet(sc::verif::neg_errno(e)) } else { Action::ForceRet(sc::verif::neg_errno(e)) };
         rules.push(Rule { nr: None, nth: Some(j as usize), action, times: 1 });
